@@ -2006,6 +2006,28 @@ fn sharing_streams(args: &Args, rng: &mut Rng, out: &mut Out, hist: &mut Hist) {
             4 => Ty::Struct(vec![leaf(rng), leaf(rng)]),
             _ => agreeing_struct(rng),
         });
+        // (a const-qualified name is only used as a whole element type: an array of it or a variable initialised from
+        // it runs into unrelated diagnostics of the type checker)
+        let plain_entry = |tys: &Vec<Ty>, rng: &mut Rng, j: usize| -> usize {
+            let is_const = |j: usize| {
+                let mut j = j;
+                loop {
+                    match &tys[j] {
+                        Ty::Ref(_, true) => return true,
+                        Ty::Ref(i, false) => j = *i,
+                        _ => return false,
+                    }
+                }
+            };
+            let mut j = j;
+            for _ in 0..8 {
+                if !is_const(j) {
+                    return j;
+                }
+                j = rng.below(j as u64 + 1) as usize;
+            }
+            0
+        };
         for k in 1..nt {
             let r = rng.below(20);
             if r == 0 {
@@ -2013,7 +2035,9 @@ fn sharing_streams(args: &Args, rng: &mut Rng, out: &mut Out, hist: &mut Hist) {
                 continue;
             }
             if r == 1 {
-                tys.push(Ty::Arr(Box::new(Ty::Ref(rng.below(k as u64) as usize, false)), rng.range(1, 3) as u64));
+                let j0 = rng.below(k as u64) as usize;
+                let j = plain_entry(&tys, rng, j0);
+                tys.push(Ty::Arr(Box::new(Ty::Ref(j, false)), rng.range(1, 3) as u64));
                 continue;
             }
             if r == 2 {
@@ -2028,6 +2052,7 @@ fn sharing_streams(args: &Args, rng: &mut Rng, out: &mut Out, hist: &mut Hist) {
                 if rng.chance(2, 5) {
                     // recent entries more often: chains of nesting
                     let j = if rng.chance(1, 2) { k - 1 } else { rng.below(k as u64) as usize };
+                    let j = plain_entry(&tys, rng, j);
                     let mut m = Ty::Ref(j, false);
                     if rng.chance(1, 5) {
                         m = Ty::Arr(Box::new(m), rng.range(1, 3) as u64);
@@ -2040,7 +2065,9 @@ fn sharing_streams(args: &Args, rng: &mut Rng, out: &mut Out, hist: &mut Hist) {
             }
             if !has_ref {
                 let at = rng.below(ms.len() as u64 + 1) as usize;
-                ms.insert(at, Ty::Ref(rng.below(k as u64) as usize, false));
+                let j0 = rng.below(k as u64) as usize;
+                let j = plain_entry(&tys, rng, j0);
+                ms.insert(at, Ty::Ref(j, false));
             }
             tys.push(Ty::Struct(ms));
         }
